@@ -108,7 +108,7 @@ void harness(void)
 		c->base.copy = xattr_reader_copy;
 		c->base.refcount = 1;
 
-		VERIF_ASSERT(!VERIF_SAME_OBJECT(c, o), C19_OB("fresh"));
+		VERIF_ASSERT(C19_DISTINCT(c, o), C19_OB("fresh"));
 		VERIF_ASSERT(c->xattr_start == xs && c->xattr_end == xe &&
 			     c->num_id_blocks == NB && c->num_ids == num_ids,
 			     C19_OB("fresh"));
@@ -131,7 +131,7 @@ void harness(void)
 		}
 		if (NB > 0) {
 			VERIF_ASSERT(c->id_block_starts != NULL &&
-				     !VERIF_SAME_OBJECT(c->id_block_starts, starts) &&
+				     C19_DISTINCT(c->id_block_starts, starts) &&
 				     VERIF_RW_OK(c->id_block_starts, NB * sizeof(sqfs_u64)) &&
 				     c->id_block_starts[kb] == vb, C19_OB("fresh"));
 			c->id_block_starts[kb] = ~vb;
